@@ -29,7 +29,8 @@ RULE = ("seeded plans: (grid class/shape/bounds/periodicity, registered operator
         "(kernel set, workers, partition, hash of the scheduler's choice sequence)")
 PROBES = ["sched/regions", "sched/switches", "sched/switch_between_read_and_write", "probes/serial_branch_below_threshold",
           "probes/more_workers_than_rows", "probes/nine_point_stencil_prologue", "probes/route_scipy", "probes/route_sparse_matrix",
-          "probes/route_compiled_ghost_setter", "probes/vectorized_operator_regions", "probes/dynamic_partition"]
+          "probes/route_compiled_ghost_setter", "probes/vectorized_operator_regions", "probes/dynamic_partition",
+          "probes/linked_value_sequence"]
 COMPONENTS = {
     "real": ["kernel source of pde.backends.numba.operators.{cartesian,cylindrical_sym} (executed by CPython, rewritten only at the "
              "prange loop), operator factories and registry, interpreted and compiled ghost-cell setters, fields, grids, scipy "
@@ -127,6 +128,9 @@ def gen_plan(rng, tier, idx):
         "engine": "prange-sim", "grid": grid, "op": name, "rank_in": rank_in, "kwargs": kwargs,
         "dtype": "complex" if rng.random() < 0.2 else "float", "field_seed": rng.randrange(1 << 30),
         "bc": rng.choice(BC_SCALAR if rank_in == 0 else BC_TENSOR), "threshold": threshold,
+        # a boundary value linked to a user array (bc.link_value) that is changed in place between two evaluations of
+        # the same operator / setter objects: every route has to follow the live value
+        "linked": [rng.uniform(-2, 2), rng.uniform(-2, 2)] if rng.random() < 0.2 else None,
         "sched": {"seed": rng.randrange(1 << 30), "workers": rng.choice([2, 2, 3, 3, 4, 5]),
                   "partition": rng.choice(["static", "static", "roundrobin", "reversed", "dynamic"]),
                   "strategy": rng.choice(["random", "random", "pct", "chunk", "stall"]),
@@ -378,12 +382,113 @@ def execute(plan):
         else:
             agree("sparse Laplace matrix", common.make_laplace_from_matrix(mat, vec)(np.array(data, copy=True)))
             probe("route_sparse_matrix")
+    if plan.get("linked") and viol is None:
+        _linked_value_sequence(plan, grid, gspec, fcls, data, name, kw, rank_in, out_shape, backend, fail, probe, log, stats)
     log.add("verdict", viol["class"] if viol else None)
     total_regions = stats["sched"].get("regions", 0)
     return {"violation": viol, "digest": log.digest(), "stats": stats,
             "nontrivial": total_regions > 0 and stats["sched"].get("switches", 0) > 0,
             "sig": digest_of([name, kw, gspec["cls"], plan["sched"]["workers"], plan["sched"]["partition"], sched.region_sigs]),
             "sched_steps": stats["sched"].get("preemption_points", 0), "events_head": log.head[:40]}
+
+
+def _linked_value_sequence(plan, grid, gspec, fcls, data, name, kw, rank_in, out_shape, backend, fail, probe, log, stats):
+    """Route agreement over a short history: one set of boundary-condition / operator / setter objects whose boundary
+    value is linked to an array that the user changes in place."""
+    from pde.grids.boundaries.local import ConstBCBase
+
+    bc = _bc(plan["bc"], gspec)
+    try:
+        bcs = grid.get_boundary_conditions(bc, rank=rank_in)
+    except Exception:  # noqa: BLE001
+        return
+    target = None
+    for ax in range(grid.num_axes):
+        for side in (bcs[ax].low, bcs[ax].high):
+            if isinstance(side, ConstBCBase) and not getattr(side, "value_is_linked", False) and type(side).__name__ in (
+                    "DirichletBC", "NeumannBC", "MixedBC", "CurvatureBC") and target is None:
+                target = side
+    if target is None:
+        return
+    val = np.asarray(target.value, dtype=float)
+    full_shape = tuple(target._shape_tensor) + tuple(target._shape_boundary)
+    if val.shape != full_shape:
+        if val.shape == tuple(target._shape_tensor):
+            val = val.reshape(val.shape + (1,) * len(target._shape_boundary))
+        try:
+            val = np.broadcast_to(val, full_shape)
+        except ValueError:
+            return
+    linked = np.ascontiguousarray(val).copy()
+    try:
+        target.link_value(linked)
+    except Exception as err:  # noqa: BLE001
+        log.add("link-refused", type(err).__name__)
+        return
+    probe("linked_value_sequence")
+    op_no_bc = backend.make_operator_no_bc(grid, name, **kw)
+    try:
+        oper = grid.make_operator(name, bcs, backend="numba", **kw)
+        setter = backend.make_ghost_cell_setter(bcs)
+    except Exception as err:  # noqa: BLE001
+        fail("C03/route-raised", f"{name}{kw} with a linked boundary value on {gspec}: building the operator raised {type(err).__name__}: {err}")
+        return
+    for step, newval in enumerate([None, *plan["linked"]]):
+        if newval is not None:
+            linked[...] = newval  # the user updates the linked array in place
+        # reference: fresh, unlinked conditions carrying the current value
+        bcs_ref = grid.get_boundary_conditions(bc, rank=rank_in)
+        for ax in range(grid.num_axes):
+            for nm in ("low", "high"):
+                side = getattr(bcs_ref[ax], nm)
+                if getattr(bcs[ax], nm) is target:
+                    side.value = np.array(linked, copy=True)
+        fref = fcls(grid, np.array(data, copy=True))
+        fref.set_ghost_cells(bcs_ref)
+        ref = np.full(out_shape, np.nan, dtype=fref._data_full.dtype)
+        op_no_bc(np.array(fref._data_full, copy=True), ref)
+        scale = float(np.nanmax(np.abs(ref))) if ref.size else 0.0
+
+        def agree(route, value):
+            value = np.asarray(value)
+            ok = value.shape == ref.shape and bool(np.allclose(value, ref, rtol=1e-10, atol=1e-10 * max(scale, 1e-30), equal_nan=True))
+            stats["routes"]["linked:" + route] = stats["routes"].get("linked:" + route, 0) + 1
+            log.add("linked-route", step, route, ok)
+            if not ok:
+                fail("C03/route-disagrees", f"{name}{kw} bc={bc} on {gspec}: after the array linked to {type(target).__name__}(axis {target.axis}, "
+                     f"{'upper' if target.upper else 'lower'}) was changed in place (update #{step}, value {newval!r}) route `{route}` does not follow "
+                     f"the new value (differs from fresh conditions by {float(np.nanmax(np.abs(value - ref))) if value.shape == ref.shape else float('nan'):.3e})",
+                     key=f"C03/route-disagrees/linked-value/{route}")
+
+        try:
+            agree("field.apply_operator(bcs object)", fcls(grid, np.array(data, copy=True)).apply_operator(name, bcs, **kw).data)
+            agree("grid.make_operator(bcs object), made before the update", oper(np.array(data, copy=True)))
+            f2 = fcls(grid, np.array(data, copy=True))
+            f2.set_ghost_cells(bcs)
+            o2 = np.full(out_shape, np.nan, dtype=f2._data_full.dtype)
+            op_no_bc(np.array(f2._data_full, copy=True), o2)
+            agree("set_ghost_cells(bcs object) + make_operator_no_bc", o2)
+            full = np.array(fcls(grid, np.array(data, copy=True))._data_full, copy=True)
+            setter(full)
+            o3 = np.full(out_shape, np.nan, dtype=full.dtype)
+            op_no_bc(full, o3)
+            agree("compiled ghost-cell setter made before the update", o3)
+            if name == "laplace" and not kw and plan["dtype"] == "float":
+                import importlib
+
+                modname = {"UnitGrid": "cartesian", "CartesianGrid": "cartesian", "PolarSymGrid": "polar_sym",
+                           "SphericalSymGrid": "spherical_sym", "CylindricalSymGrid": "cylindrical_sym"}[gspec["cls"]]
+                mod = importlib.import_module(f"pde.backends.scipy.operators.{modname}")
+                common = importlib.import_module("pde.backends.scipy.operators.common")
+                try:
+                    mat, vec = mod._get_laplace_matrix(bcs)
+                except (NotImplementedError, RuntimeError, TypeError, ValueError):
+                    pass
+                else:
+                    agree("sparse Laplace matrix (bcs object)", common.make_laplace_from_matrix(mat, vec)(np.array(data, copy=True)))
+        except Exception as err:  # noqa: BLE001
+            fail("C03/route-raised", f"{name}{kw} bc={bc} on {gspec} with a linked value, update #{step}: a route raised {type(err).__name__}: {err}")
+            return
 
 
 def shrink_lists(plan):
@@ -422,3 +527,46 @@ def simplify(plan):
             yield variant(lambda p, seed=seed: p["sched"].update(seed=seed))
     if plan["threshold"] != 1:
         yield variant(lambda p: p.update(threshold=1))
+    if plan.get("linked"):
+        yield variant(lambda p: p.update(linked=None))
+        if plan["linked"] != [1.0, 2.0]:
+            yield variant(lambda p: p.update(linked=[1.0, 2.0]))
+
+
+def post_batch(tier, seed, agg):
+    """Thorough tier only: JIT-mode confirmation with real, uncontrolled numba threads (labelled as
+    observation, not simulation; see sim/jit_confirm.py)."""
+    import json
+    import os
+    import subprocess
+    import sys
+
+    if tier != "thorough" and not os.environ.get("VERIF_JIT"):
+        return None
+    from sim.core import ROOT
+
+    env = dict(os.environ)
+    env.pop("NUMBA_DISABLE_JIT", None)
+    env["NUMBA_NUM_THREADS"] = "16"
+    env["OMP_NUM_THREADS"] = "16"
+    env["VERIF_SEED"] = str(seed)
+    p = subprocess.run([sys.executable, os.path.join(ROOT, "sim", "jit_confirm.py")], capture_output=True, env=env, cwd=ROOT, timeout=3000)
+    results = None
+    for line in p.stdout.decode(errors="replace").splitlines():
+        if line.startswith("JITCONFIRM "):
+            results = json.loads(line[11:])
+    if results is None:
+        return {"harness_errors": [{"run_index": -1, "error": "JIT confirmation produced no result: " + p.stderr.decode(errors="replace")[-1500:], "plan": None}]}
+    viols = []
+    for r in results:
+        if not r["ok"]:
+            viols.append({"run_index": -1, "plan": None, "no_minimise": True, "digest": None,
+                          "violation": violation("C03/jit-parallel-differs-from-serial",
+                                                 f"compiled parallel kernel {r['case']} differs from the compiled serial kernel by {r['maxdiff']:.3e} "
+                                                 f"with real numba threads {r['threads']}", key="C03/jit/" + r["case"])})
+    return {"coverage": {"jit_confirmation": {"note": "real compiled parallel=True kernels, numba threads 1/2/5/16, 3 repetitions each, "
+                                              "vs compiled serial kernel at rtol 1e-12; schedule NOT controlled (observation, not simulation)",
+                                              "kernels": len(results), "all_equal": all(r["ok"] for r in results),
+                                              "max_difference": max(r["maxdiff"] for r in results),
+                                              "cases": [r["case"] for r in results]}},
+            "violations": viols}
